@@ -393,6 +393,86 @@ func judgeC07(c C07Case, newSP func() *saml2.SAMLServiceProvider) h.Outcome {
 	return o
 }
 
+// C07Flip: a custom key store whose answer CHANGES from call to call (a rotation in progress behind a
+// store that reads from disk or a secrets manager): it alternates between (key E1, a certificate of E1 that is outside
+// its validity at the SP clock) and (key E2, a valid certificate of E2). With ValidateEncryptionCert on, a message
+// that only E1's key can open must never be accepted — E1's only certificate is not valid — whichever answer comes
+// first and however often the library asks.
+type C07Flip struct {
+	SP         h.SPConfig `json:"sp"`
+	FirstStale bool       `json:"firstStale"`
+	StaleWin   string     `json:"staleWindow"` // past | future
+	ToStale    bool       `json:"toStale"`     // encrypted to E1 (the stale pair) or to E2
+	Enc        h.EncSpec  `json:"enc"`
+	Calls      int        `json:"calls"`
+	Encoded    string     `json:"encoded"`
+}
+
+type flipStore struct {
+	pairs [2]struct {
+		key  *rsa.PrivateKey
+		cert []byte
+	}
+	n int
+}
+
+func (f *flipStore) GetKeyPair() (*rsa.PrivateKey, []byte, error) {
+	p := f.pairs[f.n%2]
+	f.n++
+	return p.key, p.cert, nil
+}
+
+func genC07Flip(t *rapid.T) C07Flip {
+	c := C07Flip{SP: h.BaseSP(), FirstStale: rapid.Bool().Draw(t, "firstStale"), StaleWin: rapid.SampledFrom([]string{"past", "future"}).Draw(t, "staleWindow"),
+		ToStale: rapid.IntRange(0, 3).Draw(t, "toStale") != 0, Calls: rapid.IntRange(1, 4).Draw(t, "calls")}
+	c.SP.ValidateEncCert = true
+	to := h.CertRef{Key: "E2", Window: "wide"}
+	if c.ToStale {
+		to = h.CertRef{Key: "E1", Window: c.StaleWin}
+	}
+	e := h.GenEncSpec(to).Draw(t, "enc")
+	c.Enc = *e
+	g := gridGenuine(c.SP, 1, "assertions")
+	g.Enc = []*h.EncSpec{&c.Enc}
+	_, enc, _, err := g.Render()
+	if err != nil {
+		t.Fatalf("harness: %v", err)
+	}
+	c.Encoded = enc
+	return c
+}
+
+func checkC07Flip(c C07Flip) h.Outcome {
+	o := h.Outcome{NonTrivial: c.ToStale, Classes: []string{fmt.Sprintf("toStale:%v/firstStale:%v", c.ToStale, c.FirstStale), "stale:" + c.StaleWin}}
+	sp := c.SP.Build()
+	st := &flipStore{}
+	stale := 1
+	if c.FirstStale {
+		stale = 0
+	}
+	st.pairs[stale].key, st.pairs[stale].cert = h.K("E1").RSA, h.K("E1").DER[c.StaleWin]
+	st.pairs[1-stale].key, st.pairs[1-stale].cert = h.K("E2").RSA, h.K("E2").DER["wide"]
+	sp.SPKeyStore = st
+	for i := 0; i < c.Calls; i++ {
+		var err error
+		if i%2 == 0 {
+			_, err = sp.ValidateEncodedResponse(c.Encoded)
+		} else {
+			_, err = sp.RetrieveAssertionInfo(c.Encoded)
+		}
+		o.Classes = append(o.Classes, fmt.Sprintf("accepted:%v", err == nil))
+		if err == nil && c.ToStale {
+			o.Violation = h.V("stale-pair-decrypted", "call %d accepted an assertion that only the key of the certificate outside its validity (%s) can open, with ValidateEncryptionCert on (store asked %d times)", i+1, c.StaleWin, st.n)
+			return o
+		}
+	}
+	o.Classes = dedup(o.Classes)
+	return o
+}
+
+func TestC07_PFlip(t *testing.T)      { h.RunProp(t, "C07.flip", genC07Flip, checkC07Flip) }
+func TestC07_ReplayFlip(t *testing.T) { h.RunReplay(t, "C07.flip", checkC07Flip) }
+
 func TestC07(t *testing.T) { h.RunProp(t, "C07", genC07, checkC07) }
 func TestC07_Replay(t *testing.T) {
 	h.RunReplay(t, "C07", checkC07)
